@@ -33,7 +33,9 @@ def graphStep {n : Nat} (G : Graph n) (o : Json) : M (Graph n × Json) := do
   let r : Json := if !ok then err else
     match op with
     | .valence v => (match ref? n v with | some v => jNat (G.val v) | none => err)
-    | .remove v => (match ref? n v with | some v => jGraphMinus (removeVertex G v) v | none => err)
+    | .remove v => (match ref? n v with
+      | some v => (jGraphMinus (removeVertex G v) v).setObjVal! "gone" (Json.arr #[err, err, err])
+      | none => err)
     | _ => Json.str "ok"
   pure (G', Json.mkObj [("r", r), ("g", jGraph G')])
 
@@ -139,6 +141,8 @@ def opDivArith (j : Json) : M Json := do
       ("add3", jExcDiv (match dAdd same A B with | .ok d => dAdd true d.deg C | .error e => .error e)),
       ("chip", jExcDiv (dChip cv : Except Unit (Divisor n))),
       ("zero", jDiv (dZero : Divisor n)),
+      ("chip2", jExcDiv (dChip cv : Except Unit (Divisor n))),
+      ("zero2", jDiv (dZero : Divisor n)),
       ("result_aliases_operand", jBool false),
       ("eq_other", Json.arr #[jBool false, jBool false, jBool true]),
       -- `D.remove_vertex(v)`: the induced graph with the remaining chip counts (cached total = their sum)
